@@ -102,8 +102,21 @@ EnableDropped(stmts) == \E i, j \in DOMAIN stmts : stmts[i].k = "place" /\ stmts
 NegatedShared(stmts) == \E j \in DOMAIN stmts : stmts[j].k = "prop" /\ stmts[j].p = "enable" /\ stmts[j].e.k = "un" /\ stmts[j].e.op = "!"
                             /\ stmts[j].e.e.k = "ref" /\ \E i \in Lets(stmts) : stmts[i].n = stmts[j].e.e.n /\ IsCmp(stmts[i].e)
 
+(* KF-C01-shared-operand-merge: x = a * 2 + b; y = a * 3 + b;  b is wired to the input connectors of both adders on the   *)
+(* same colour as their other (same-typed) operands, so the two adders' input networks become one: both compute a*2 + a*3 + b. *)
+RECURSIVE DeepBins(_)
+DeepBins(ss) == UNION {IF ss[i].k \in {"let", "prop", "int", "expr"} THEN BinsE(ss[i].e)
+                       ELSE IF ss[i].k = "for" THEN DeepBins(ss[i].body) ELSE {} : i \in DOMAIN ss}
+SharedOperandPair(b1, b2) == b1.r.k = "ref" /\ b2.r = b1.r /\ b1.l.k = "bin" /\ b2.l.k = "bin" /\ b1.l # b2.l
+Declared0(ss) == {ss[i].n : i \in {i \in DOMAIN ss : ss[i].k \in {"int", "let", "mem", "place"}}}
+RECURSIVE LoopShared(_)
+LoopShared(ss) == \E i \in DOMAIN ss : ss[i].k = "for" /\
+                     (LoopShared(ss[i].body) \/ \E b \in DeepBins(ss[i].body) : b.r.k = "ref" /\ b.l.k = "bin" /\ b.r.n \notin Declared0(ss[i].body))
+SharedOperandMerge(stmts) == LoopShared(stmts) \/ \E b1, b2 \in DeepBins(stmts) : SharedOperandPair(b1, b2)
+
 KnownFinding(stmts, clause) ==
-  IF clause = "C06_condition" /\ EnableDropped(stmts) THEN "KF-C06-enable-dropped"
+  IF clause \in {"C01_value", "C06_enable"} /\ SharedOperandMerge(stmts) THEN "KF-C01-shared-operand-merge"
+  ELSE IF clause = "C06_condition" /\ EnableDropped(stmts) THEN "KF-C06-enable-dropped"
   ELSE IF clause = "C06_enable" /\ NegatedShared(stmts) THEN "KF-C06-negated-shared-condition"
   ELSE IF clause \in {"C04_iterates", "C04_reader"} /\ DeciderChain(stmts) THEN "KF-C04-decider-chain"
   ELSE IF clause \in {"C04_iterates", "C04_reader"} /\ FeedbackForeign(stmts) THEN "KF-C04-feedback-foreign"
